@@ -25,7 +25,9 @@ def run(ctx) -> None:
     ctx.guard("C18.group-integrity", grouping)
     ctx.guard("C18.one-permutation", sorting)
     ctx.guard("C18.mode", optimize)
-    from .common import none_concat_rule
+    from .common import memo_rule, none_concat_rule
+
+    ctx.guard("C18.mode", memo_rule, "C18.no-cache", ("worklists/utils.py",))
 
     ctx.guard("C18.mode", none_concat_rule, "C18.mode", ("optimize_partition_by", "partition_by_column"), "returning the (explicitly chosen or automatic) mode")
     # the automatic choice asks the labware whether it is a trough
